@@ -352,6 +352,13 @@ class CallMixin:
         if isinstance(node.func, ast.Attribute) and isinstance(node.func.value, ast.Name) \
                 and node.func.value.id in ("logging", "warnings") and frame.lookup(node.func.value.id) is None:
             return NONE
+        if isinstance(node.func, ast.Name) and node.func.id == "implies" and len(node.args) == 2 \
+                and frame.lookup("implies") is None:
+            premise = self.truth(self.eval(node.args[0], frame))
+            if conc_bool(premise) is False:
+                return BoolV(True)
+            conclusion = self.truth(self.eval(node.args[1], frame))
+            return BoolV(self.or_([self.not_(premise), conclusion]))
         func = self.eval(node.func, frame)
         args: list[V] = []
         for arg in node.args:
